@@ -67,25 +67,39 @@ Theorem C01_no_slot_overflow : forall exc scn, valid exc scn = true ->
 Proof. exact no_slot_overflow. Qed.
 Print Assumptions C01_no_slot_overflow.
 
-(* the summary of every repetition carries the true counts and reads OK exactly when nothing failed and something ran or was ignored *)
-Theorem C01_summary_true : forall exc scn rp, valid exc scn = true -> In rp (o_reps (run exc scn)) ->
-  let c := rep_counts (s_cfg scn) (number 0%N (s_tests scn)) in
+(* the summary of EACH repetition carries the true counts OF THAT REPETITION (the program may behave differently from one repetition
+   to the next: rep_want scn j / rep_tests scn j are computed from the program as it behaves in repetition j) and reads OK exactly
+   when that repetition had no failure and ran or ignored at least one test *)
+Theorem C01_summary_true : forall exc scn j rp, valid exc scn = true -> nth_error (o_reps (run exc scn)) j = Some rp ->
+  let c := rep_want scn (N.of_nat j) in
   exists m, r_summary rp = Some m /\
     m_tests m = N.of_nat (length (s_tests scn)) /\ m_run m = k_run c /\ m_checks m = k_checks c /\ m_ign m = k_ign c /\ m_filt m = k_filt c /\
     (m_tests m = m_run m + m_ign m + m_filt m)%N /\
     m_nfail m = (if (0 <? k_fail c)%N then Some (k_fail c) else None) /\
-    r_fails rp = rep_fails (s_cfg scn) (number 0%N (s_tests scn)) /\
+    r_fails rp = rep_fails (s_cfg scn) (rep_tests scn (N.of_nat j)) /\
     k_fail c = N.of_nat (length (r_fails rp)) /\
     (m_ok m = true <-> (k_fail c = 0 /\ 0 < k_run c + k_ign c)%N).
 Proof. exact summary_true. Qed.
 Print Assumptions C01_summary_true.
 
-(* the value the command-line runner returns is zero iff every repetition was OK (fewer than 2^31 failures in total) *)
+(* the value the command-line runner returns, over the per-repetition outcomes (fewer than 2^31 failures in total): there are
+   n = eff_repeat (-r value) >= 1 repetitions (-r0 repeats twice), and the value is zero iff EVERY repetition j < n is OK for the
+   program as it behaves in repetition j, iff every printed summary reads OK *)
 Theorem C01_exit_value : forall exc scn, valid exc scn = true -> c_cli (s_cfg scn) = true ->
+  let n := eff_repeat (c_repeat (s_cfg scn)) in
+  length (o_reps (run exc scn)) = N.to_nat n /\ (0 < n)%N /\
   exists z, o_ret (run exc scn) = Some z /\
-    (z = 0 <-> (c_repeat (s_cfg scn) = 0%N \/ rep_is_ok (rep_counts (s_cfg scn) (number 0%N (s_tests scn))) = true)).
+    (z = 0 <-> forall j, (j < n)%N -> rep_is_ok (rep_want scn j) = true) /\
+    (z = 0 <-> forall rp, In rp (o_reps (run exc scn)) -> exists m, r_summary rp = Some m /\ m_ok m = true).
 Proof. exact exit_value_iff. Qed.
 Print Assumptions C01_exit_value.
+
+(* the two accumulators of the repeat loop: over any list of repetitions, returned value zero iff every one of them is OK *)
+Theorem C01_exit_value_accumulates : forall (f : N -> cnt) (L : list N),
+  Z.of_N (sum_fail f L) < 2 ^ 31 -> Z.of_nat (length L) < 2 ^ 31 ->
+  (exit_value (sum_fail f L) (n_failed f L) = 0 <-> forallb (fun j => rep_is_ok (f j)) L = true).
+Proof. exact exit_value_zero_iff. Qed.
+Print Assumptions C01_exit_value_accumulates.
 
 (* stated limit: without the bound the size_t -> int conversion wraps (2^32 failures return 0) *)
 Theorem C01_exit_value_wrap_refuted : ~ (forall ft fe : N, exit_value ft fe = 0 -> ft = 0%N).
@@ -93,7 +107,7 @@ Proof. exact exit_value_wrap_refuted. Qed.
 Print Assumptions C01_exit_value_wrap_refuted.
 
 (* builds with and without C++ exception support behave the same on programs that cannot throw *)
-Theorem C01_build_independent : forall scn, existsb has_throw (s_tests scn) = false -> run true scn = run false scn.
+Theorem C01_build_independent : forall scn, existsb rhas_throw (s_tests scn) = false -> run true scn = run false scn.
 Proof. exact build_independent. Qed.
 Print Assumptions C01_build_independent.
 
